@@ -51,6 +51,7 @@ type scenCfg struct {
 	CurvesS     []int    `json:"curvesS"`
 	Resume      bool     `json:"resume"` // both session stores pre-populated with the same session
 	Stores      bool     `json:"stores"` // session stores present (empty unless Resume)
+	LeafOnly    bool     `json:"leafOnly"` // certificate messages carry the leaf only (the verifier builds the rest of the chain from its pool)
 	StaleC      bool     `json:"staleC"` // stores present, only the CLIENT's holds a session: it offers an id the server does not know
 	Window      int      `json:"window"`
 	IntervalMS  int      `json:"intervalMs"` // 0 => virtual timers only (1h real interval)
@@ -337,6 +338,14 @@ func (s *scenCfg) interval() time.Duration {
 	return time.Duration(s.IntervalMS) * time.Millisecond
 }
 
+func leafOnly(c tls.Certificate, on bool) tls.Certificate {
+	if !on || len(c.Certificate) < 2 {
+		return c
+	}
+
+	return tls.Certificate{Certificate: c.Certificate[:1], PrivateKey: c.PrivateKey, Leaf: c.Leaf}
+}
+
 // buildOptions turns a scenario into client and server option lists.
 func (s *scenCfg) buildOptions(st *scenStores) ([]ClientOption, []ServerOption) { //nolint:cyclop,gocognit
 	s.defaults()
@@ -381,9 +390,9 @@ func (s *scenCfg) buildOptions(st *scenStores) ([]ClientOption, []ServerOption) 
 		co = append(co, WithPSK(func([]byte) ([]byte, error) { return kc, nil }), WithPSKIdentityHint([]byte("lab-client")))
 		so = append(so, WithPSK(func([]byte) ([]byte, error) { return ks, nil }), WithPSKIdentityHint([]byte("lab-server")))
 	case "rsa":
-		so = append(so, WithCertificates(p.serverRSA))
+		so = append(so, WithCertificates(leafOnly(p.serverRSA, s.LeafOnly)))
 	default:
-		so = append(so, WithCertificates(p.server))
+		so = append(so, WithCertificates(leafOnly(p.server, s.LeafOnly)))
 	}
 	if s.Auth == "cert" || s.Auth == "rsa" {
 		if s.Verify {
@@ -392,7 +401,7 @@ func (s *scenCfg) buildOptions(st *scenStores) ([]ClientOption, []ServerOption) 
 			co = append(co, WithInsecureSkipVerify(true), WithServerName(labServerName))
 		}
 		if s.ClientCert {
-			co = append(co, WithCertificates(p.client))
+			co = append(co, WithCertificates(leafOnly(p.client, s.LeafOnly)))
 		}
 		if s.ClientAuth != 0 {
 			so = append(so, WithClientAuth(ClientAuthType(s.ClientAuth)), WithClientCAs(p.pool))
